@@ -96,7 +96,8 @@ class Sim:
         self.stats = {}
         self.crash_at = None      # (site, k): raise SimCrash at the k-th yield point of that kind
         self.yield_counts = {}
-        self.on_yield = None
+        self.crash_action = None
+        self.crashed_at = None
 
     # ---- statistics -------------------------------------------------------------------
     def count(self, key, n=1):
@@ -136,17 +137,22 @@ class Sim:
 
     # ---- yield points (crash injection) -----------------------------------------------
     def yield_point(self, site, detail=None):
-        """Called by the seams at every observable step.  Raises SimCrash when the crash
-        plan says the process dies here."""
-        k = self.yield_counts.get(site, 0) + 1
-        self.yield_counts[site] = k
-        tot = self.yield_counts.get('*', 0) + 1
-        self.yield_counts['*'] = tot
-        if self.crash_at is not None:
-            csite, ck = self.crash_at
-            if (csite == site and ck == k) or (csite == '*' and ck == tot):
-                self.trace.log('crash', site, k, detail)
-                self.count(f'crash@{site}')
-                self.crash_at = None
-                self.crashed_at = (site, k, detail, self.now)
-                raise SimCrash(f'{site}#{k}')
+        """Called by the seams at every observable step.  Counted per `site`, per `site:detail`
+        and globally ('*').  When the crash plan names this point the process dies here: through
+        `crash_action` (a function that does not return: report + os._exit, i.e. a kill without
+        unwinding) or, without one, by raising SimCrash."""
+        keys = [site, '*'] if detail is None else [site, f'{site}:{detail}', '*']
+        hit = None
+        for key in keys:
+            k = self.yield_counts.get(key, 0) + 1
+            self.yield_counts[key] = k
+            if self.crash_at is not None and self.crash_at[0] == key and self.crash_at[1] == k:
+                hit = (key, k)
+        if hit is not None:
+            self.trace.log('crash', hit[0], hit[1])
+            self.count('crash@' + site)
+            self.crash_at = None
+            self.crashed_at = {'site': hit[0], 'k': hit[1], 'detail': detail, 'now': self.now}
+            if self.crash_action is not None:
+                self.crash_action()
+            raise SimCrash(f'{hit[0]}#{hit[1]}')
